@@ -246,25 +246,31 @@ def run_replay_check(pid: str, tier: str, seed: int) -> int:
                 known[f["id"]] = known.get(f["id"], 0) + 1
             else:
                 unknown.append((v, None))
-    # ---- 4c. (C08) contraction twins on continuous-parameter programs, judged by CTwin.tla
+    # ---- 4c. twin executions on continuous-parameter programs, judged by CTwin.tla:
+    #          (C08) contraction switch on / off;  (C15) one Operation object reused / a fresh object per application
     ctw_pairs = 0
-    if plan.get("ctwins"):
+    for twin_key, twin_mod, twin_kind, twin_what in (
+            ("ctwins", "harness.ctwins", "ContractionNeutral", "joint state with contraction on differs from contraction off"),
+            ("rtwins", "harness.rtwins", "ReuseNeutral", "joint state with ONE reused Operation object per (type, parameters) differs from the run "
+                                                         "that constructs a fresh Operation for every application")):
+        if not plan.get(twin_key):
+            continue
         import re
         from concurrent.futures import ThreadPoolExecutor
         import subprocess
 
-        nprog, nst = plan["ctwins"][tier]
-        procs = 12
+        nprog, nst = plan[twin_key][tier]
+        procs = min(12, nprog)
         per = max(1, nprog // procs)
         env = dict(os.environ)
         env.update({"PYTHONPATH": "/repo:" + ROOT, "PHOTON_WEAVE_VERIF": "1", "PYTHONHASHSEED": "0"})
 
         def one(k: int) -> str:
-            path = os.path.join(trace_dir, f"ctw{k}.ndjson")
-            p = subprocess.run(["/venv/bin/python", "-m", "harness.ctwins", str(seed * 40 + k), str(per), str(nst), path],
+            path = os.path.join(trace_dir, f"{twin_key}{k}.ndjson")
+            p = subprocess.run(["/venv/bin/python", "-m", twin_mod, str(seed * 40 + k), str(per), str(nst), path],
                                cwd=ROOT, env=env, capture_output=True, text=True)
             if p.returncode != 0:
-                raise Machinery("contraction-twin driver failed:\n" + p.stderr[-1500:])
+                raise Machinery(f"twin driver {twin_mod} failed:\n" + p.stderr[-1500:])
             return path
 
         with ThreadPoolExecutor(max_workers=procs) as ex:
@@ -273,13 +279,12 @@ def run_replay_check(pid: str, tier: str, seed: int) -> int:
             rc, out = tlcrun.tlc("CTwin", "CTwin.cfg", ["-workers", "1"], timeout=1200, env={"TRACE_FILE": pth})
             m = re.search(r'<<"CONSUMED", (\d+)>>', out)
             if not m or "Error:" in out:
-                raise Machinery("contraction-twin validation failed:\n" + out[-1500:])
+                raise Machinery(f"twin validation ({twin_key}) failed:\n" + out[-1500:])
             ctw_pairs += int(m.group(1))
             for mm in re.finditer(r'<<"CTWIN", (\d+), (\d+), "(\w+)">>', out):
-                v = {"props": [pid], "kind": "ContractionNeutral", "step": int(mm.group(2)), "a": mm.group(3), "en": None, "g": None,
+                v = {"props": [pid], "kind": twin_kind, "step": int(mm.group(2)), "a": mm.group(3), "en": None, "g": None,
                      "cell": "", "flags": {}, "tid": int(mm.group(1)), "file": pth,
-                     "detail": f"program {mm.group(1)}: joint state with contraction on differs from contraction off after step "
-                               f"{mm.group(2)} ({mm.group(3)})"}
+                     "detail": f"program {mm.group(1)}: {twin_what} after step {mm.group(2)} ({mm.group(3)})"}
                 f = findings.classify(pid, v, kf)
                 if f is not None:
                     known[f["id"]] = known.get(f["id"], 0) + 1
